@@ -95,14 +95,14 @@ def impl_static(case):
 
 
 def cases(rng, tier):
-    n = {'quick': 6, 'thorough': 40, 'search': 8}[tier]
+    n = {'quick': 12, 'thorough': 40, 'search': 8}[tier]
     out = []
     for op in OPS:
         for k in range(n):
             out.append({'op': op, 'seed': rng.getrandbits(30), 'L': rng.choice([1, 2, 2, 3, 3, 4]), 'd': rng.choice([1, 2, 2, 3]),
                         'sectors': rng.random() < 0.6, 'prefix': rng.choice([0, 0, 1, 2]), 'mode': rng.choice(['left', 'right'])})
     # histories: sequences of operations on a shared pool of objects, snapshots of EVERY pool object around every step
-    nh = {'quick': 40, 'thorough': 400, 'search': 40}[tier]
+    nh = {'quick': 80, 'thorough': 400, 'search': 40}[tier]
     for k in range(nh):
         out.append({'op': 'history', 'seed': rng.getrandbits(30), 'L': rng.choice([2, 2, 3, 3, 4]), 'd': 2,
                     'sectors': rng.random() < 0.5, 'steps': rng.randint(2, 6 if tier != 'thorough' else 12), 'mode': rng.choice(['left', 'right'])})
